@@ -21,7 +21,7 @@ def quiet():
 def gen_struct(rng, k):
     n = rng.randint(1, 9)
     els = [rng.choice(["C", "H", "O", "N", "Zr", "Cu", "Cl"]) for _ in range(n)]
-    ck = ["ortho", "tric", "tric-neg", "rotated", "ortho"][k % 5]
+    ck = ["ortho", "tric", "tric-neg", "rotated", "ortho", "rot-ortho", "mono"][k % 7]
     L = [rng.uniform(6, 25) for _ in range(3)]
     cell = np.diag(L)
     if ck != "ortho":
@@ -30,6 +30,14 @@ def gen_struct(rng, k):
     if ck == "rotated":
         import findgen as FG
         cell = cell @ FG.qrot(FG.rand_quat(rng)).T
+    if ck == "rot-ortho":
+        # all angles exactly 90 degrees, vectors not along the coordinate axes (exact rotations / axis permutations)
+        import findgen as FG
+        cell = FG.make_cell(rng, 6.0, "rot-ortho")
+    if ck == "mono":
+        cell = np.diag(L)
+        i, j = rng.choice([(1, 0), (2, 0), (2, 1)])
+        cell[i, j] = rng.choice([-1, 1]) * rng.uniform(0.1, 0.4) * L[j]
     place = ["inside", "outside", "boundary", "inside"][(k // 5) % 4]
     frac = []
     for _ in range(n):
@@ -117,6 +125,26 @@ def read(text):
     o, e = quiet()
     with o, e:
         return Atoms.load_p1_cif(io.StringIO(text))
+
+
+def both_coordinate_sets(text, cart, n):
+    """add _atom_site_Cartn_x/y/z columns (the positions just read, 4 decimals) to the atom_site loop of a fractional-coordinate file"""
+    lines = text.splitlines()
+    try:
+        i0 = next(i for i, l in enumerate(lines) if l.strip().lower() == "_atom_site_fract_z")
+    except StopIteration:
+        return None
+    # the loop's tags end at the first line after i0 that does not start with '_'
+    j = i0 + 1
+    while j < len(lines) and lines[j].strip().startswith("_"):
+        j += 1
+    rows = lines[j:j + n]
+    if len(rows) != n or any(not r.strip() or r.strip().startswith(("_", "loop_")) for r in rows):
+        return None
+    new = lines[:j] + ["  _atom_site_Cartn_x", "  _atom_site_Cartn_y", "  _atom_site_Cartn_z"]
+    for r, p in zip(rows, cart):
+        new.append(r.rstrip() + "  %.4f  %.4f  %.4f" % (p[0], p[1], p[2]))
+    return "\n".join(new + lines[j + n:]) + "\n"
 
 
 def cellpar(cell):
@@ -279,6 +307,15 @@ def main(tier, seed, replay=None):
                 f_got = np.array(Bmm.positions) @ np.linalg.inv(np.array(Bmm.cell))
                 if len(f_want) == len(f_got) and circ(f_want, f_got) > 6e-5:
                     bad.append("a structure read from a Cartesian-coordinate file, moved and written with fractional coordinates is read back %.2e (fractional) away from where it was moved" % circ(f_want, f_got))
+                # a file that carries fractional AND Cartesian coordinates of the same atoms (a legal layout some converters write)
+                if ci % 3 == 0 and len(st["els"]):
+                    Tb = both_coordinate_sets(T1, np.array(B.positions), n=len(st["els"]))
+                    if Tb is not None:
+                        Bb = read(Tb)
+                        f1w = np.array(B.positions) @ np.linalg.inv(np.array(B.cell))
+                        fb = np.array(Bb.positions) @ np.linalg.inv(np.array(Bb.cell))
+                        if len(fb) != len(f1w) or circ(fb, f1w) > 6e-5:
+                            bad.append("a file with both fractional and Cartesian coordinate columns is read %.2e (fractional) away from its atoms" % (circ(fb, f1w) if len(fb) == len(f1w) else 9.9))
                 # the space-group guard: every declared name other than P1 / P 1 must be refused, whatever it starts with
                 acc_p1 = True
                 names = NON_P1 if ci == 0 else [NON_P1[0]] + [NON_P1[(2 * ci + j) % len(NON_P1)] for j in range(2)]
